@@ -54,6 +54,11 @@ TraceNext ==
   \/ Reset
   \/ Has("M_Path") /\ (IF R.sequential THEN M_StartSeq ELSE M_Start)
   \/ Has("M_Post") /\ M_Join /\ R.aborted = abort /\ R.committed = comIdx
+  \* read-only records: decisions of the code that the specification takes inside a neighbouring action
+  \/ Has("E_Res") /\ UNCHANGED vars /\ R.tx = loc[T].tx /\ R.newloc = loc[T].newloc          \* write-set expansion (decides the rewind)
+  \/ Has("H_Rec") /\ UNCHANGED vars /\ R.tx = loc[T].tx /\ R.estimate = loc[T].conflict /\ R.ok  \* history entry: estimate iff the attempt is discarded
+  \/ Has("M_Install") /\ UNCHANGED vars /\ pc["main"] = "m_join" /\ R.committed = comIdx     \* ordered output installed: exactly the committed prefix
+  \/ Has("S_Begin") /\ UNCHANGED vars /\ pc["main"] = "s_tx" /\ R.start = loc["main"].k /\ R.outcomes = Len(outcomes)
   \/ Has("S_Tx") /\ S_Tx /\ R.tx = loc["main"].k /\ loc["main"].k < N /\ R.kind = SKind(loc["main"].k)
   \* what execute() returned to its caller (recorded by the harness at the public call's return)
   \/ Has("M_Ret") /\ (IF pc["main"] = "s_tx" THEN S_Tx /\ loc["main"].k >= N ELSE UNCHANGED vars /\ pc["main"] = "done")
